@@ -7,7 +7,9 @@ deleted entries are invalid) together with history_refines of Props/C03.v (lazy 
 Tie: (1) PrefixesMap alone against the extracted prefix-map model; (2) lock-heavy state histories
 against the extracted model + specification + in-harness reference incl. the lock multiset after every
 operation; (3) the contract-visible InstanceState operations with interrupts (commit / rollback of
-re-entrant calls, stale and forged ids) against the extracted InstanceState model and an independent reference."""
+re-entrant calls, stale and forged ids) against the extracted InstanceState model and an independent reference;
+(4) harness c15 `slab`: the real slab of PrefixesMap (hook slab_dump) cell by cell after every operation against sm_trace of
+coq/Trie/SlabPrefixMap.v (+ structural oracle on the real slab); (5) `limits`: InstanceStateEntry::new/split against h_enc/h_split."""
 import json
 import hashlib
 from . import common as c
@@ -151,13 +153,13 @@ def _limits_part(ctx, binp):
 
 def run(ctx):
     ctx.assumptions += [
-        "theorems are about the functional models (prefix trie, radix tree, state machine); the slab-based PrefixesMap and "
-        "the arena of MutableTrie are tied by the differential correspondence (the real `slab` crate is replaced by a "
-        "functional shim with the same LIFO key reuse)",
+        "lock theorems are about the functional models (prefix trie, radix tree, state machine); the slab-based PrefixesMap "
+        "is modelled as coded and proved to refine them (SlabPrefixMap.v, round 4); the arena of MutableTrie is tied by the "
+        "differential correspondence only (the real `slab` crate is replaced by an offline shim with the same LIFO key reuse)",
         "the InstanceState layer (generation counter, entry_mapping, iterators, result encodings, migrate on resume, "
         "entry_read/write/size/resize) is modelled in coq/Trie/InstanceState.v on top of the trie machine; the extracted model is "
-        "the oracle of the `inst` histories (the in-harness reference is kept as a second opinion); energy and the 2^30 size "
-        "limits are not modelled",
+        "the oracle of the `inst` histories (the in-harness reference is kept as a second opinion); the 2^30 size limits, "
+        "index / generation overflow and the energy of the refused paths are modelled separately (InstLimits.v, InstEnergy.v)",
         "interrupts are simulated as the scheduler drives them: suspend, make_fresh_generation, inner call, then resume on the "
         "new state with state_updated=true iff the inner call succeeded and touched the state, else on the old state",
         "energy: the theorems about the refused paths are about the host-function model Contract/HostV1.v, which is tied to "
@@ -215,6 +217,9 @@ def run(ctx):
         "(iter 14%, next 16%, delete_iter 6%, insert 16%, delete 12%, delete_prefix 7%, handles 13%, generations 6%, freeze/thaw "
         "2%) with several iterators on equal, nested and disjoint prefixes, the lock multiset compared after every operation; "
         "InstanceState histories: 1-250 contract-level operations with up to 2 nested interrupts (commit 2/3, rollback 1/3), ids "
-        "kept across interrupts (stale use) and forged ids; non-trivial = a result other than skip/locked/none; distinct = "
+        "kept across interrupts (stale use) and forged ids; slab histories (c15 slab): 1-45 operations (insert/delete/check/"
+        "is_or_has/set_count) over keys of length 0-4 from bytes {0,1,2,255} related to earlier keys, grow-shrink-grow phases, "
+        "every occupied slab cell compared with sm_trace after every operation; handle cases (c15 limits): boundary-heavy "
+        "(gen, idx) with 1/4 of the indices in [2^32, 2^33); non-trivial = a result other than skip/locked/none; distinct = "
         "distinct hash of the operation list")
     tc.finish(ctx, proof_broken)
